@@ -420,6 +420,8 @@ func teardownCase(name string, events []ev, syncerID, tgID int, tags []string) *
 		case e.A == tgID && e.Kind == "tg.stopped":
 			c.Op("closeret", "ok")
 		case e.A != syncerID:
+		case e.Kind == "x.listener.closed":
+			c.Op("envclosel", "ok")
 		case e.Kind == "s.peer.add":
 			peers[e.B] = &peer{}
 			if connOpen[e.G] > 0 {
